@@ -224,7 +224,7 @@ func (p c10) Gen(t *rapid.T, env *Env) (*Case, []*Out) {
 					// only the root's own keywords are merged, not its definitions
 					sub = tf.Doc.Del("$defs").Del("definitions")
 				}
-				if hasRelativeRef(sub) {
+				if hasRelativeRef(sub) && !memoRescues(w, f, tf, sub) {
 					meta.MergedRel = true
 				}
 				if tf.Pkg != f.Pkg {
@@ -722,6 +722,73 @@ func relSuffix(m c10Meta) string {
 }
 
 // hasRelativeRef: does the subtree contain a $ref that is not absolute?
+// memoRescues narrows known finding KF-C10-2. The recorded defect: an allOf/anyOf branch $ref into another document
+// merges the target's property nodes into a struct that the REFERRING document's generator builds, so a relative
+// reference inside the target is resolved against the wrong document. It does not show when the generator already
+// knows what that inner node stands for: the target is generated in full (by its own document's generator) before the
+// merge, and a node that is just {"$ref": X} with X a named type is remembered per output (namedBySchema). So: every
+// relative reference inside the merged target is the whole value of one of its top-level properties, denotes a
+// definition or root that is an object (a named struct type), and target and referrer share one output - then the
+// unchanged tree resolves it correctly and the world is judged in full (seeded changes s96 and s111 removed entries
+// of that memo and were hidden behind the known finding's wider scope before).
+func memoRescues(w *World, from, tf *SFile, sub any) bool {
+	so, ok := sub.(Obj)
+	if !ok || from.Pkg != tf.Pkg {
+		return false
+	}
+	if o1, _ := expectedRouting(w, from); true {
+		if o2, _ := expectedRouting(w, tf); o1 != o2 {
+			return false
+		}
+	}
+	rest := Obj{}
+	for _, kv := range so {
+		if kv.K != "properties" {
+			rest = append(rest, kv)
+			continue
+		}
+		po, ok := kv.V.(Obj)
+		if !ok {
+			return false
+		}
+		for _, p := range po {
+			pv, ok := p.V.(Obj)
+			if !ok {
+				return false
+			}
+			if !hasRelativeRef(pv) {
+				continue
+			}
+			ref, isRef := pv.Get("$ref")
+			rs, isStr := ref.(string)
+			if !isRef || !isStr || len(pv) != 1 {
+				return false // an array of references, a combination, a reference with siblings ...
+			}
+			mt, md, ok := modelResolve(w, tf, rs)
+			target := w.File(mt)
+			if !ok || target == nil {
+				return false
+			}
+			if md == "" {
+				if !target.RootObj {
+					return false
+				}
+				continue
+			}
+			isMarkerDef := false
+			for _, d := range target.Defs {
+				if d == md {
+					isMarkerDef = true
+				}
+			}
+			if !isMarkerDef {
+				return false
+			}
+		}
+	}
+	return !hasRelativeRef(rest)
+}
+
 func hasRelativeRef(v any) bool {
 	switch x := v.(type) {
 	case Obj:
